@@ -284,6 +284,32 @@ func judgeStartRace(c ConcCase, o StartObs) []string {
 	if o.StopRet == retOK && o.StopLive != 0 {
 		bad = append(bad, fmt.Sprintf("stop returned success while %d member(s) were alive", o.StopLive))
 	}
+	// the mode rule holds for a death DURING the start as for any other: Permanent - any member's death ends the
+	// run, Transient - an abnormal one does; the run ends with the causing reason
+	if !c.Stop && o.StartRet == retOK {
+		died, abnormal, cause, mixed := false, false, -1, false
+		for _, r := range c.Self {
+			if r < 0 {
+				continue
+			}
+			died = true
+			if r != rNormal && r != rShutdown {
+				abnormal = true
+			}
+			if cause >= 0 && cause != r {
+				mixed = true
+			}
+			cause = r
+		}
+		if (c.Mode == 3 && died) || (c.Mode == 2 && abnormal) {
+			if o.State != 1 {
+				bad = append(bad, fmt.Sprintf("mode rule: a member of a %s application died (reason %d) while the start was in progress, yet the application is in state %d with %d live member(s) and %d Terminate callback(s)",
+					map[int]string{2: "transient", 3: "permanent"}[c.Mode], cause, o.State, o.Live, len(o.Terms)))
+			} else if !mixed && len(o.Terms) == 1 && o.Terms[0] != cause {
+				bad = append(bad, fmt.Sprintf("mode rule: the run ended by the death of a member (reason %d) reports reason %d to Terminate", cause, o.Terms[0]))
+			}
+		}
+	}
 	return bad
 }
 
